@@ -26,7 +26,7 @@ of the package, every class through its MRO, static / class methods), never list
      DeprecationWarning that names the replacement, no log record, no output, receiver untouched.
  L1X explicit calls of an ancestor's alias, ALL (receiver class, alias) pairs x receiver construction {throw-away
      subclass that only redefines the replacement, throw-away subclass that RE-DECLARES old and new (with the real
-     decorator, as a class body)} x every explicit access path (``K.old(obj)``, ``super(K, obj).old()``, K over the
+     decorator, as a class body), one that re-defines the old name as a plain method, the class as it is} x every explicit access path (``K.old(obj)``, ``super(K, obj).old()``, K over the
      MRO) x shapes x pools; plus L1S: every alias of the package that is shadowed by a re-declaration in a real
      subclass (Expression.getValue under the 31 classes that re-declare getValue) x every explicit path on the real
      class.  Same reference model as L0H; the expected function is turned into the sentinel.
@@ -55,9 +55,14 @@ from vf.rec import Rec
 ID = 'C20'
 LEVEL = 'exploration'
 TECHNIQUE = ('exhaustive enumeration of all discovered (receiver class, alias) pairs x call variants x argument '
-             'shapes with a recording sentinel as the replacement, plus paired old/new calls on real receivers '
-             'from a recipe table, on the real package')
-RULE = ('L0: toy declarations (5 forms) x receivers x shapes; L1: every discovered (class, alias) pair x variants '
+             'shapes with a recording sentinel as the replacement, every access path (ordinary, K.old(obj), super(K, obj).old()) '
+             'on exhaustively enumerated class hierarchies and on every package class against a plain-Python model of name '
+             'resolution, plus paired old/new calls on real receivers from a recipe table, on the real package')
+RULE = ('L0: toy declarations (5 forms) x receivers x shapes; L0H: every hierarchy over {inherit, ov-new, redecl, realias, '
+        'plain-old} per class (chains of depth <= 3, thorough 4; diamonds, thorough with a class below) x {method, classmethod} '
+        'x every access path on the bottom receiver x shapes x pools; L1X: every (class, alias) pair x receiver {override, '
+        'redeclare, replace-old, plain} x every explicit path K.old(obj) / super(K, obj).old() over the MRO x shapes x pools (non-trivial: '
+        'the expected function differs from the one the receiver resolves, or the receiver overrides it); L1: every discovered (class, alias) pair x variants '
         '{sub1, sub2, viaclass, own} x (positional count x keyword set x raise) x 2 token pools, every module-level '
         'alias binding x shapes x pools; TS: every alias declaration; DP: every decorated callable x keyword subsets x '
         'shapes; L2: every recipe x argument set.  A case is non-trivial when the sentinel / both paired calls were '
@@ -73,6 +78,11 @@ ASSUMPTIONS = [
     'temporarily replaces __code__ of the replacement function (restored afterwards)',
     'L2 compares on representative arguments from a recipe table only; random generators are re-seeded identically '
     'before each side of a pair; expressions are compared by str() and, where a tiny database allows, by value',
+    'explicit calls (K.old(obj), super(K, obj).old()): a path that reaches the alias the receiver itself resolves cannot be '
+    'told apart from obj.old() by any wrapper, so the receiver\'s replacement is demanded there (as in L0 via-base); a path '
+    'that reaches an alias shadowed by a re-declaration must run what the same explicit call of the new name runs, and this '
+    'is demanded only where all explicit paths reaching that alias agree (else counted: *_undecidable / weak oracle "one of '
+    'the candidates")',
     'static-method aliases cannot see a receiver: for them only "keeps working" (reaches the declared or the resolved '
     'replacement) is demanded; there is none in the package today',
 ]
@@ -658,14 +668,21 @@ def path_expectation(rows, row):
     'shadowed'  : the path finds an alias that a subclass of its declaring class re-declares (only explicit calls get
                   there): the function the same explicit call of the new name runs, when all explicit paths reaching
                   this alias agree on it;
-    'undecidable': they do not agree (the statement cannot be met for all of them at once);
+    'undecidable': they do not agree (the statement cannot be met for all of them at once), or the declaration points
+                  to another function than the one its own class resolves under the new name;
     'not-an-alias': the path finds no alias (a plain method / nothing)."""
     if row['old'] is None or row['old'][0] != 'alias':
         return 'not-an-alias', None, ()
     own = rows[0]
     if own['old_cls'] == row['old_cls'] and own['old'] == row['old']:
         return 'ordinary', own['pair'], (own['pair'],)
-    cands = sorted({r['pair'] for r in rows[1:] if r['old_cls'] == row['old_cls'] and r['old'] == row['old']}, key=repr)
+    cands = {r['pair'] for r in rows[1:] if r['old_cls'] == row['old_cls'] and r['old'] == row['old']}
+    if len(row['old']) > 2:
+        # the function the declaration itself points to (known for the toy hierarchies only): a declaration whose
+        # target is not what its own class resolves under the new name ('realias' under multiple inheritance) leaves
+        # "the replacement" of that alias ambiguous between the function and the name
+        cands.add(row['old'][2])
+    cands = sorted(cands, key=repr)
     if len(cands) == 1 and cands[0] is not None:
         return 'shadowed', cands[0], tuple(cands)
     return 'undecidable', None, tuple(cands)
@@ -780,16 +797,16 @@ def h_paths(spec, kind):
     """All access paths on the receiver (= last class) with the model's verdict: list of (path, mode, target, cands)."""
     mro, decl = h_abstract(spec)
     r = spec[-1][0]
-    rows = explicit_path_model(mro[r], lambda k: mro[k], lambda k: decl[k]['old'], lambda k: decl[k]['new'],
-                               unbound=(kind == 'method'))
+    rows = explicit_path_model(mro[r], lambda k: mro[k], lambda k: decl[k]['old'], lambda k: decl[k]['new'])
     out = []
     for row in rows:
         mode, target, cands = path_expectation(rows, row)
         form, i = row['path']
         kname = mro[r][i] if i is not None else None
         if kind == 'classmethod':
+            # (K.old() binds K itself: an ordinary call on K; the explicit unbound form is K.old.__func__(cls))
             forms = [('ordinary-class', None), ('ordinary-inst', None)] if form == 'ordinary' else \
-                [('super-class', kname), ('super-inst', kname)]
+                [('unbound-func', kname)] if form == 'unbound' else [('super-class', kname), ('super-inst', kname)]
         else:
             forms = [(form, kname)]
         for f in forms:
@@ -825,6 +842,8 @@ def h_probe(spec, kind, path, shape, pool, built=None):
                 res = getattr(rcls, old)(*pos, **kw)
             elif form == 'ordinary-inst':
                 res = getattr(obj, old)(*pos, **kw)
+            elif form == 'unbound-func':
+                res = getattr(ns[kname], old).__func__(rcls, *pos, **kw)
             elif form == 'super-class':
                 res = getattr(super(ns[kname], rcls), old)(*pos, **kw)
             elif form == 'super-inst':
@@ -876,8 +895,7 @@ def h_run(rec, kind, specs, tier, only=None):
             if mode == 'not-an-alias':
                 rec.count('l0h_paths_that_find_no_alias')
                 continue
-            if mode == 'undecidable':
-                rec.count('l0h_paths_explicit_calls_disagree_weak_oracle_only')
+            rec.count(f'l0h_paths_{mode}' + ('_weak_oracle_only' if mode == 'undecidable' else ''))
             for shape in h_shapes(tier):
                 for pool in POOLS:
                     r = h_probe(spec, kind, path, shape, pool, built)
@@ -1064,6 +1082,191 @@ def l1_fun_probe(binding, shape, pool):
                 exc = e
     bad = judge_call(obs, sink, res, exc, pos, kw, newname)
     return bad, outcome_of(bad, sink, exc), True
+
+
+# =========================================================================== L1X: explicit calls of an ancestor's alias
+_R_CACHE = {}
+RECV_KINDS = ['override', 'redeclare', 'replace-old', 'plain']
+REACH_CLAUSE = {'ordinary': 'alias-does-not-reach-receivers-replacement',
+                'shadowed': 'explicit-call-of-ancestors-alias-does-not-run-ancestors-replacement',
+                'undecidable': 'alias-reaches-none-of-the-candidate-replacements'}
+
+
+def _redeclaring(C, alias, newname, plain=False):
+    """Throw-away subclass of C, declared as a class body, that RE-DECLARES the replacement (a decoy that only records)
+    and, next to it, the old name with the real decorator - what the package itself does for getValue.
+    plain=True: the old name is re-defined as an ordinary (not deprecated) method instead."""
+    key = (C, alias, newname, plain)
+    if key not in _R_CACHE:
+        from biogeme.deprecated import deprecated
+        src = ['class T(C):',
+               f'    def {newname}(self, *a, **k):', '        DECOY.append((self, a, k))', '        return None']
+        if plain:
+            src += [f'    def {alias}(self, *a, **k):', '        DECOY.append((self, a, k))', '        return None']
+        else:
+            src += [f'    @deprecated({newname})', f'    def {alias}(self, *a, **k):', '        pass']
+        for nm in sorted(getattr(C, '__abstractmethods__', ())):
+            if nm not in (alias, newname) and nm.isidentifier():
+                src += [f'    def {nm}(self, *a, **k):', '        return None']
+        ns = {'C': C, 'deprecated': deprecated, 'DECOY': [], '__name__': 'c20_throwaway'}
+        exec('\n'.join(src) + '\n', ns)
+        ns['T'].__name__ = ns['T'].__qualname__ = ('O_' if plain else 'R_') + C.__name__
+        _R_CACHE[key] = (ns['T'], ns['DECOY'])
+    return _R_CACHE[key]
+
+
+def real_rows(T, alias, newname):
+    """The access-path model on a real class: structure only (what each class body declares under the two names)."""
+    mro = [k for k in T.__mro__ if k is not object]
+    funcs = {}
+
+    def old_of(k):
+        raw = vars(k).get(alias)
+        if raw is None:
+            return None
+        f, _ = _unwrap_raw(raw)
+        return ('alias', id(f)) if _is_alias(f) and _newname(f) == newname else ('plain', id(f))
+
+    def new_of(k):
+        raw = vars(k).get(newname)
+        if raw is None:
+            return None
+        f, _ = _unwrap_raw(raw)
+        core = core_function(f) if callable(f) else None
+        funcs[id(core if core is not None else f)] = core
+        return id(core if core is not None else f)
+
+    rows = explicit_path_model(mro, lambda k: [x for x in k.__mro__ if x is not object], old_of, new_of)
+    return mro, rows, funcs
+
+
+def _l1x_receiver(pair, recvkind):
+    import inspect
+
+    cmod, cqual, alias, newname, dmod, dqual, kind = pair
+    C = _get_class(cmod, cqual)
+    raw_new = inspect.getattr_static(C, newname, None)
+    if kind != 'method' or raw_new is None or not inspect.isfunction(raw_new):
+        return None  # (class / static aliases and aliases of module functions: no receiver-bound explicit form)
+    if recvkind == 'override':
+        return _throwaway(C, newname, 'method', 1), None
+    if recvkind in ('redeclare', 'replace-old'):
+        return _redeclaring(C, alias, newname, plain=(recvkind == 'replace-old'))
+    return _plain_sub(C), None
+
+
+def l1x_paths(pair, recvkind):
+    """Explicit access paths on the receiver of this kind: list of (path, mode) (None: not applicable)."""
+    r = _l1x_receiver(pair, recvkind)
+    if r is None:
+        return None
+    T, _ = r
+    alias, newname = pair[2], pair[3]
+    mro, rows, _ = real_rows(T, alias, newname)
+    out = []
+    for row in rows[1:]:
+        mode, target, cands = path_expectation(rows, row)
+        if mode == 'not-an-alias':
+            continue
+        if recvkind != 'override' and mode == 'ordinary':
+            continue  # (the ordinary reading on these receivers is what L1 sub1/own and the 'override' receiver probe)
+        out.append((row['path'], mode))
+    return out
+
+
+def l1x_probe(pair, recvkind, path, shape, pool):
+    """One explicit call K.old(obj, ...) / super(K, obj).old(...).  Returns (bad, outcome, nontrivial, mode) or None."""
+    path = tuple(path)
+    r = _l1x_receiver(pair, recvkind)
+    if r is None:
+        return None
+    T, decoy = r
+    cmod, cqual, alias, newname, dmod, dqual, kind = pair
+    mro, rows, funcs = real_rows(T, alias, newname)
+    row = next((x for x in rows if x['path'] == path), None)
+    if row is None:
+        return None
+    mode, target, cands = path_expectation(rows, row)
+    if mode == 'not-an-alias':
+        return None
+    targets = [funcs.get(t) for t in cands]
+    if not targets or any(f is None for f in targets):
+        return None
+    pos, kw, ret, raises = make_args(shape, pool)
+    sink = Sink(ret, raises)
+    try:
+        obj = object.__new__(T)
+    except TypeError as e:
+        return [], ('receiver-not-constructible', str(e)[:60]), False, mode
+    if decoy is not None:
+        del decoy[:]
+    form, i = path
+    K = mro[i]
+    res = exc = None
+    swaps = [CodeSwap(f, sink) for f in {id(f): f for f in targets}.values()]
+    try:
+        for sw in swaps:
+            sw.__enter__()
+        with Observe() as obs:
+            try:
+                if form == 'unbound':
+                    res = getattr(K, alias)(obj, *pos, **kw)
+                else:
+                    res = getattr(super(K, obj), alias)(*pos, **kw)
+            except BaseException as e:  # noqa
+                exc = e
+    finally:
+        for sw in reversed(swaps):
+            sw.__exit__(None, None, None)
+    bad = judge_call(obs, sink, res, exc, (obj,) + pos, kw, newname)
+    how = f'{K.__name__}.{alias}(obj, ...)' if form == 'unbound' else f'super({K.__name__}, obj).{alias}(...)'
+    newcall = how.replace(f'{alias}(', f'{newname}(')
+    if mode != 'ordinary':
+        ran_decoy = bool(decoy)
+        bad = [((REACH_CLAUSE[mode], f'{how} on an instance of {T.__name__} (a subclass that re-defines {alias}) does not run the '
+                 + (f'function that {newcall} runs' if mode == 'shadowed' else
+                    f'function that any explicit call of {newname} reaching this alias runs ({len(cands)} candidates)') + (' - it ran the re-declaring subclass\'s own replacement' if ran_decoy else '')
+                 + (f' (the alias raised {type(exc).__name__}: {exc})' if exc is not None and exc is not sink.exc else ''),
+                 'the function the same explicit call of the new name runs', 'another one / none')
+                if b[0] == 'alias-does-not-reach-receivers-replacement' else b) for b in bad]
+    try:
+        d = dict(vars(obj))
+    except TypeError:
+        d = {}
+    if d and sink.calls:
+        bad.append(('adds-more-than-the-warning', f'receiver state changed: {sorted(d)}', {}, sorted(d)))
+    nontrivial = mode == 'ordinary' or rows[0]['pair'] != target
+    return bad, (recvkind, mode, form) + outcome_of(bad, sink, exc), nontrivial, mode
+
+
+def l1x_shapes(tier):
+    if tier == 'quick':
+        return [(0, (), False), (2, ('k1',), False), (1, ('k1', 'k2'), False), (0, (), True)]
+    return shapes('quick')
+
+
+def l1x_run(rec, pairs, tier):
+    for pair in pairs:
+        for recvkind in RECV_KINDS:
+            paths = l1x_paths(pair, recvkind)
+            if paths is None:
+                rec.count('l1x_not_applicable_alias_is_not_a_method_of_a_method')
+                continue
+            for path, mode in paths:
+                rec.count(f'l1x_paths_{mode}')
+                for shape in l1x_shapes(tier):
+                    for pool in POOLS:
+                        r = l1x_probe(pair, recvkind, path, shape, pool)
+                        if r is None:
+                            rec.count('l1x_replacement_not_swappable')
+                            continue
+                        bad, outcome, nt, mode = r
+                        rec.case(('L1X', pair, recvkind, path, shape, pool) if nt else None,
+                                 (pair, recvkind, path, shape, pool, outcome), outcome=('L1X',) + outcome)
+                        _viol(rec, f'L1X explicit call, receiver {recvkind}', f'method:{pair[5]}.{pair[2]}:explicit-call-{mode}-alias',
+                              f'{pair[1]}.{pair[2]} (declared in {pair[5]}) -> {pair[3]}, path {path}', bad,
+                              dict(part='L1X', pair=list(pair), recvkind=recvkind, path=list(path),
+                                   shape=[shape[0], list(shape[1]), shape[2]], pool=pool))
 
 
 # =========================================================================== TS: target sanity
@@ -1282,6 +1485,7 @@ def dp_sanity(rec):
 
 # =========================================================================== tasks
 L1_SHARDS = {'quick': 24, 'thorough': 48}
+L0H_SHARDS = {'quick': 3, 'thorough': 12}
 VARIANTS = ['sub1', 'sub2', 'viaclass', 'own']
 POOLS = ['obj', 'val']
 
@@ -1294,6 +1498,12 @@ def tasks(tier, seed):
     n = L1_SHARDS[tier]
     for i in range(n):
         t.append(dict(part='L1', shard=i, of=n, tier=tier))
+    nh = L0H_SHARDS[tier]
+    for kind in H_KINDS:
+        for i in range(nh):
+            t.append(dict(part='L0H', kind=kind, shard=i, of=nh, tier=tier))
+    for i in range(n):
+        t.append(dict(part='L1X', shard=i, of=n, tier=tier))
     t.extend(l2_tasks(tier))
     return t
 
@@ -2092,6 +2302,7 @@ def l2_run(task, rec, only=None):
                         _pair(rec, label, newname, build, co, cn, post, lambda c: vars(c['r']),
                               dict(part='L2', group='expr', shard=task.get('shard', 0), of=task.get('of', 1), label=label, alph=_ALPH),
                               f'method:{dqual}.{alias}' + (':subclass-redefining-the-replacement' if form == 'subclass' else '' if dqual == cq else ':inherited'))
+            l2_explicit(rec, cq, type(probe), want, task)
         if mine:
             rec.sample(dict(part='L2', group='expr', classes=[q for _, q in mine][:6]))
     elif group == 'KW':
@@ -2125,6 +2336,51 @@ def l2_run(task, rec, only=None):
         rec.count('layer2_uncovered_receiver_pairs', pairs_unc)
         rec.case(None, ('uncovered', unc, pairs_unc), outcome=('L2-uncovered', len(unc)))
         rec.sample(dict(part='L2', uncovered_aliases=unc[:40], uncovered_receiver_pairs=pairs_unc))
+
+
+def l2_explicit(rec, cq, R, want, task):
+    """Aliases that R's class hierarchy re-declares below their declaring class (Expression.getValue under Numeric, ...):
+    every explicit access path that reaches the shadowed alias, old vs new called the SAME way on a real receiver
+    (only where the access-path model is decidable)."""
+    for alias in sorted(EXPR_ALIAS_ARGSETS):
+        newnames = []
+        for k in R.__mro__:
+            raw = vars(k).get(alias)
+            f = _unwrap_raw(raw)[0] if raw is not None else None
+            if f is not None and _is_alias(f) and _newname(f) not in newnames:
+                newnames.append(_newname(f))
+        for newname in newnames:
+            mro, rows, _ = real_rows(R, alias, newname)
+            for row in rows[1:]:
+                mode, target, cands = path_expectation(rows, row)
+                if mode in ('not-an-alias', 'ordinary'):
+                    continue
+                if mode == 'undecidable':
+                    rec.count('l2_explicit_paths_undecidable')
+                    continue
+                form, i = row['path']
+                K = mro[i]
+                for al, need, mk in EXPR_ALIAS_ARGSETS[alias]:
+                    if need != 'any':
+                        continue
+                    label = f'{cq}.{alias}[{al};{form}:{K.__name__}]@{_ALPH}'
+                    if not want(label):
+                        continue
+
+                    def build(cq=cq):
+                        return dict(r=fx_expr(cq))
+
+                    def via(c, name, mk=mk, form=form, K=K):
+                        a, k = mk(c)
+                        if form == 'unbound':
+                            return getattr(K, name)(c['r'], *a, **k)
+                        return getattr(super(K, c['r']), name)(*a, **k)
+
+                    _pair(rec, label, newname, build, lambda c, via=via, alias=alias: via(c, alias),
+                          lambda c, via=via, newname=newname: via(c, newname), None, lambda c: vars(c['r']),
+                          dict(part='L2', group='expr', shard=task.get('shard', 0), of=task.get('of', 1), label=label, alph=_ALPH),
+                          f'method:{row["old_cls"].__name__}.{alias}:explicit-call-on-a-subclass-that-redeclares-it')
+                    rec.count('l2_explicit_paired_calls')
 
 
 # ---- obsolete keywords on real callables: f(old=v) vs f(new=v) (dropped keywords: f(old=v) vs f())
@@ -2330,6 +2586,18 @@ def run_task(task):
         if pairs:
             rec.sample(dict(part='L1', shard=task['shard'], first_pair=list(pairs[0]), pairs=len(pairs)))
         rec.count('l1_pairs_probed', len(pairs))
+    elif part == 'L0H':
+        specs = h_specs(tier)[task['shard']::task['of']]
+        h_run(rec, task['kind'], specs, tier)
+        rec.count('l0h_hierarchies', len(specs))
+        if specs:
+            rec.sample(dict(part='L0H', kind=task['kind'], hierarchies=len(specs), last=[list(map(str, c)) for c in specs[-1]]))
+    elif part == 'L1X':
+        pairs = D['pairs'][task['shard']::task['of']]
+        l1x_run(rec, pairs, tier)
+        rec.count('l1x_pairs_probed', len(pairs))
+        if pairs:
+            rec.sample(dict(part='L1X', shard=task['shard'], first_pair=list(pairs[0]), pairs=len(pairs)))
     elif part == 'DP':
         for entry in D['dp']:
             for subset, npos, extra, order in dp_cases(entry, tier):
@@ -2393,6 +2661,10 @@ def finalize(agg, tier, seed):
                                    f'callables, the source scan {c.get("ast_deprecated_parameters_declarations")}', {}))
     if c.get('l1_pairs_probed', 0) != c.get('discovered_class_alias_pairs', 0):
         agg.harness_errors.append((f'L1 probed {c.get("l1_pairs_probed")} pairs of {c.get("discovered_class_alias_pairs")}', {}))
+    if c.get('l1x_pairs_probed', 0) != c.get('discovered_class_alias_pairs', 0):
+        agg.harness_errors.append((f'L1X probed {c.get("l1x_pairs_probed")} pairs of {c.get("discovered_class_alias_pairs")}', {}))
+    if not c.get('l1x_paths_shadowed', 0) or not c.get('l0h_hierarchies', 0):
+        agg.harness_errors.append(('no explicit call of a shadowed alias was explored: L0H / L1X would be vacuous', {}))
     if c.get('modules_not_importable', 0):
         agg.harness_errors.append(('some package modules could not be imported during discovery', {}))
 
@@ -2421,6 +2693,18 @@ def replay(case):
         if r and r != 'n/a':
             kk = _l1_kindkey(pair, case['variant'], r[1])
             _viol(rec, f'L1 {case["variant"]}', kk, f'{pair[1]}.{pair[2]} (declared in {pair[5]}) -> {pair[3]}', r[0], case)
+    elif part == 'L0H':
+        spec = tuple((n, tuple(b), o) for n, b, o in case['spec'])
+        r = h_probe(spec, case['kind'], tuple(case['path']), shp(case['shape']), case['pool'])
+        if r:
+            _viol(rec, 'L0H hierarchy x access path', f'decorator-level:{case["kind"]}:{r[2]}-alias',
+                  f'{case["kind"]} alias, hierarchy {case["spec"]}, path {case["path"]}', r[0], case)
+    elif part == 'L1X':
+        pair = tuple(case['pair'])
+        r = l1x_probe(pair, case['recvkind'], tuple(case['path']), shp(case['shape']), case['pool'])
+        if r:
+            _viol(rec, f'L1X explicit call, receiver {case["recvkind"]}', f'method:{pair[5]}.{pair[2]}:explicit-call-{r[3]}-alias',
+                  f'{pair[1]}.{pair[2]} (declared in {pair[5]}) -> {pair[3]}, path {case["path"]}', r[0], case)
     elif part in ('TS', 'DPS'):
         ts_all(rec)
         dp_sanity(rec)
